@@ -71,7 +71,7 @@ func TestProp(t *testing.T) {
 	}
 	env := vh.GetEnv()
 	rep := vh.NewReport("C11", "exploration")
-	rep.Rule("per stack 16 generated upstreams cover every non-empty subset of {allowed_email_addresses, allowed_email_domains, allowed_groups} (each >= 2x) with list variants (several entries, case variants, lone *, * mixed, empty-string entry, non-ASCII entry, leading-@ domain, white space); cases stride over e-mail class (24: listed/case variants/several @/empty local/empty/look-alikes/no @/trailing dot/white space/unicode/long/...) x provider group answer (7: member/other/empty/error/case variant/near name/last listed) per upstream; each case is evaluated at the real /oauth2/callback, on the next request, after validity expiry (/validate + /profile) and after token expiry (/refresh + /profile) with unchanged facts; a second stream (c11-moved: upstreams listing 2-3 groups, masks group / address+group / domain+group / all) CHANGES the provider's group answer between the moments (login: first listed / last listed / both / unlisted / none; revalidation and refresh independently: first / last / both / unlisted / none / provider error; refresh from the login cookie or from the cookie revalidation set) and judges every moment against the reference with the facts of that moment; a third stream (c11-long) configures allowed_groups lists of 21/25/40/100 names (some with spaces, non-ASCII letters, 120 characters) and users whose only listed group sits at position 1/20/21/22/last/random of the list as the proxy asks it, at all four moments. /profile is answered like the real authenticator does (only groups the request asked about; sut.ProfileFaithful) except for one case in eight, which gets a fixed answer that also names an unasked, unlisted group. distinct = (kinds, list variants, e-mail class, group answer, login verdict, cookie source), counted when the callback answered. The empty rule set is probed through the configuration loader (separate stream). A fourth case stream (c11-rare) writes raw upstream_configs.yml documents whose rule lists are rare but legal - blank entries (\"\", \" \", several), alone or next to a real entry; entries from a {{template}} variable that resolves to the empty string (quoted, or unquoted in a block list) or to a padded name; padded entries (leading / trailing / both); duplicated entries (same / other case); rule kinds present-but-empty ([] / ~) next to a configured one - one rare kind per upstream, every (rule-kind subset, rare kind, variant) combination in turn, e-mail class (10, incl. an e-mail with an empty domain part) x provider answer (7: member as listed / as listed but trimmed / other / none / case variant / a group literally named blank / error), same four moments and judge; the reference reads configured strings literally: a blank entry names nothing, a list of blank entries is a configured rule kind that admits nobody; matches that exist only after trimming or case folding are counted don't-cares. A fifth case stream (c11-shape) makes the SHAPE of a rule list the input: per upstream one rule kind (addresses / domains / groups; alone or next to plain other kinds) lists 2..40 entries in sorted / reverse / shuffled / sorted-by-lower-case configuration order, mixed-case entries whose case changes their relative byte order (plus entries differing only in case, all-upper and all-lower controls), entries that are prefixes / suffixes of one another, duplicates, a very long entry; probes are the listed entry first / middle / last in configuration order, in byte order as configured and in byte order lower-cased (or random), spelled as listed / lower / upper / case-swapped (groups: alone / after an unlisted group / with other listed groups in reverse order / case-swapped), and users just outside (last character +-1, extended at the end / front, truncated, unrelated); two-sided reference, four moments, same judge; half of the /profile answers there are fixed (verbatim order) instead of faithful")
+	rep.Rule("per stack 16 generated upstreams cover every non-empty subset of {allowed_email_addresses, allowed_email_domains, allowed_groups} (each >= 2x) with list variants (several entries, case variants, lone *, * mixed, empty-string entry, non-ASCII entry, leading-@ domain, white space); cases stride over e-mail class (24: listed/case variants/several @/empty local/empty/look-alikes/no @/trailing dot/white space/unicode/long/...) x provider group answer (7: member/other/empty/error/case variant/near name/last listed) per upstream; each case is evaluated at the real /oauth2/callback, on the next request, after validity expiry (/validate + /profile) and after token expiry (/refresh + /profile) with unchanged facts; a second stream (c11-moved: upstreams listing 2-3 groups, masks group / address+group / domain+group / all) CHANGES the provider's group answer between the moments (login: first listed / last listed / both / unlisted / none; revalidation and refresh independently: first / last / both / unlisted / none / provider error; refresh from the login cookie or from the cookie revalidation set) and judges every moment against the reference with the facts of that moment; a third stream (c11-long) configures allowed_groups lists of 21/25/40/100 names (some with spaces, non-ASCII letters, 120 characters) and users whose only listed group sits at position 1/20/21/22/last/random of the list as the proxy asks it, at all four moments. /profile is answered like the real authenticator does (only groups the request asked about; sut.ProfileFaithful) except for one case in eight, which gets a fixed answer that also names an unasked, unlisted group. distinct = (kinds, list variants, e-mail class, group answer, login verdict, cookie source), counted when the callback answered. The empty rule set is probed through the configuration loader (separate stream). A fourth case stream (c11-rare) writes raw upstream_configs.yml documents whose rule lists are rare but legal - blank entries (\"\", \" \", several), alone or next to a real entry; entries from a {{template}} variable that resolves to the empty string (quoted, or unquoted in a block list) or to a padded name; padded entries (leading / trailing / both); duplicated entries (same / other case); rule kinds present-but-empty ([] / ~) next to a configured one - one rare kind per upstream, every (rule-kind subset, rare kind, variant) combination in turn, e-mail class (10, incl. an e-mail with an empty domain part) x provider answer (7: member as listed / as listed but trimmed / other / none / case variant / a group literally named blank / error), same four moments and judge; the reference reads configured strings literally: a blank entry names nothing, a list of blank entries is a configured rule kind that admits nobody; matches that exist only after trimming or case folding are counted don't-cares. A fifth case stream (c11-shape) makes the SHAPE of a rule list the input: per upstream one rule kind (addresses / domains / groups; alone or next to plain other kinds) lists 2..40 entries in sorted / reverse / shuffled / sorted-by-lower-case configuration order, mixed-case entries whose case changes their relative byte order (plus entries differing only in case, all-upper and all-lower controls), entries that are prefixes / suffixes of one another, duplicates, a very long entry, or (special-chars lists) CHARACTERS inside the entries - group names with & + = ; % # ? / \\ : space \" ' < > | * @ $ literal %2C %26 %20, non-ASCII, tab, comma (a name with a comma cannot be asked about through /profile: counted don't-care), addresses with + & = % # ' / ! ? %40, domains with - _ digits; probes are the listed entry first / middle / last in configuration order, in byte order as configured and in byte order lower-cased (or random), spelled as listed / lower / upper / case-swapped (groups: alone / after an unlisted group / with other listed groups in reverse order / case-swapped), and users just outside (last character +-1, extended at the end / front, truncated, unrelated); two-sided reference, four moments, same judge; half of the /profile answers there are fixed (verbatim order) instead of faithful")
 	rep.Assume("the fake authenticator answers exactly as scripted (redeem/validate/refresh/profile keyed by per-case tokens)")
 	rep.Assume("virtual time = shifting the deadlines inside the sealed cookie with the proxy's own cipher (DESIGN 2.4)")
 	rep.Assume("for sessions minted by the harness (login refused) group membership on a request with no check due is 'as of the last check': not judged; a session with an empty e-mail cannot be issued (redeem refuses it): not judged where no e-mail rule is configured")
@@ -174,6 +174,9 @@ func TestProp(t *testing.T) {
 	for _, p := range shapePositions {
 		floors["shape_pos_"+p] = 10
 	}
+	floors["shape_member_of_listed_group_with_query_significant_character"] = 8
+	floors["shape_reference_admits_by_group_through_entry_with_special_characters"] = 10
+	floors["shape_reference_admits_by_address_through_entry_with_special_characters"] = 10
 	floors["shape_moment_login"] = 300
 	floors["shape_reference_compared_login"] = 300
 	floors["shape_later_compared_login_cookie"] = 100
